@@ -206,6 +206,17 @@ fn main() {
     }
     let mut n_vec = 0u64;
     let only_outcome = arg("--only-outcome");
+    // --real-forwarder: the outbound outcome is produced by the REAL DirectForwarder/TcpForwarder
+    // (loopback listener, closed port, multicast destination = ENETUNREACH, policy refusals,
+    // resolver failure) instead of the scripted one; forwarder calls are then not observable
+    let real = std::env::args().any(|a| a == "--real-forwarder");
+    let real_listener = std::net::TcpListener::bind("127.0.0.1:0").unwrap();
+    let real_port = real_listener.local_addr().unwrap().port();
+    let closed_port = { let l = std::net::TcpListener::bind("127.0.0.1:0").unwrap(); l.local_addr().unwrap().port() };
+    let enetunreach = matches!(std::net::TcpStream::connect_timeout(&"224.0.0.1:80".parse().unwrap(), Duration::from_secs(2)), Err(e) if e.raw_os_error() == Some(libc::ENETUNREACH));
+    if real && !enetunreach {
+        rep.note("connect to 224.0.0.1 does not fail with ENETUNREACH here: the 'unreachable' outcome is not exercised with the real forwarder");
+    }
     for f in &files {
         for v in read_tagged(f, "VEC") {
             let reqs: Vec<Value> = v["reqs"].as_array().unwrap().clone();
@@ -214,6 +225,31 @@ fn main() {
                     continue;
                 }
             }
+            let mut v = v;
+            let mut real_allow_private = true;
+            if real {
+                let r0 = &v["reqs"][0];
+                if v["reqs"].as_array().unwrap().len() != 1 || r0["auth"] != "valid1" || !v["cfg"]["authn"].as_bool().unwrap() || v["cfg"]["sni"] != "none" {
+                    continue;
+                }
+                let kind = r0["kind"].as_str().unwrap().to_string();
+                let outcome = r0["outcome"].as_str().unwrap().to_string();
+                let target = match (kind.as_str(), outcome.as_str()) {
+                    ("connectIp", "ok") => format!("127.0.0.1:{}", real_port),
+                    ("connectIp", "refused") => format!("127.0.0.1:{}", closed_port),
+                    ("connectIp", "unreachable") if enetunreach => "224.0.0.1:80".to_string(),
+                    ("connectIp", "loopback") => { real_allow_private = false; format!("127.0.0.1:{}", real_port) }
+                    ("connectIp", "nonroutable") => { real_allow_private = false; "10.11.12.13:80".to_string() }
+                    ("connectIp6", "loopback") => { real_allow_private = false; format!("[::1]:{}", real_port) }
+                    ("connectIp6", "nonroutable") => { real_allow_private = false; "[::ffff:10.11.12.13]:80".to_string() }
+                    ("connectIp6", "refused") => format!("[::1]:{}", closed_port),
+                    ("connectHost", "resolver") => "no-such-host.invalid:443".to_string(),
+                    ("connectHost", "loopback") => { real_allow_private = false; format!("localhost:{}", real_port) }
+                    _ => continue,
+                };
+                v["reqs"][0]["target"] = json!(target);
+            }
+            let reqs: Vec<Value> = v["reqs"].as_array().unwrap().clone();
             n_vec += 1;
             let authn = v["cfg"]["authn"].as_bool().unwrap();
             let sni_mode = v["cfg"]["sni"].as_str().unwrap().to_string();
@@ -225,6 +261,7 @@ fn main() {
                 let opts = CoreOpts {
                     clients: if authn { vec![("alice".into(), "S3cretAlicePw".into()), ("bob".into(), "S3cretBobPw1".into())] } else { vec![] },
                     accepted_sni: "sn1cr3dsOK".into(),
+                    allow_private: real && real_allow_private,
                     ..Default::default()
                 };
                 let fwd = ScriptedForwarder::new(TcpPlan::Other, MuxPlan::Ok, MuxPlan::Ok);
@@ -258,7 +295,7 @@ fn main() {
                 let res = catch(|| {
                     rt.block_on(async {
                         let core = make_core(&opts);
-                        set_forwarder(Some(fwd2.clone()));
+                        set_forwarder(if real { None } else { Some(fwd2.clone()) });
                         let obs = if *proto == "h1" { vec![run_h1_full(&core, sni.clone(), &reqs2[0]).await] } else { run_h2(&core, sni.clone(), &reqs2).await };
                         set_forwarder(None);
                         // let spawned request tasks finish
@@ -320,7 +357,9 @@ fn main() {
                     // attributed to a stream; the per-stream check ignores egress, the totals are
                     // checked for the vector below
                     let same_mux = matches!(kind, "udp" | "icmp") && reqs2.iter().filter(|x| x["kind"] == r["kind"]).count() > 1;
-                    let ok = if same_mux {
+                    let ok = if real {
+                        finals.iter().any(|f| matches_final(f, o, f["egress"].as_bool().unwrap()))
+                    } else if same_mux {
                         finals.iter().any(|f| matches_final(f, o, f["egress"].as_bool().unwrap()))
                     } else {
                         finals.iter().any(|f| matches_final(f, o, egress))
@@ -346,7 +385,7 @@ fn main() {
                             format!("tunnel:malformed-auth-502:{}:{}", auth, cfg_code(&v))
                         } else {
                             let ac = if matches!(auth, "valid1" | "valid2") { "valid" } else if auth == "absent" { "absent" } else { "invalid" };
-                            format!("tunnel:{}:{}:{}:{}:{}:got{}", issue, kind, outcome, ac, cfg_code(&v), got)
+                            format!("tunnel{}:{}:{}:{}:{}:{}:got{}", if real { "-real" } else { "" }, issue, kind, outcome, ac, cfg_code(&v), got)
                         };
                         rep.violation_with(
                             sig,
